@@ -2,7 +2,7 @@
     of the library as a function from a list of byte strings to a result
     class and a list of byte strings (the projected observables).  The Go
     harness implements the same table on top of the real code. *)
-From DV Require Import Base.Bytes Label.Model V4.Model V4.Accessors V4.Builders V6.Model V6.Dump.
+From DV Require Import Base.Bytes Label.Model V4.Model V4.Accessors V4.Builders V6.Model V6.Dump V6.Relay.
 
 
 (** entry 1: rfc1035label.FromBytes(b) -> Labels *)
@@ -175,6 +175,33 @@ Definition e_v4_build (args : list bytes) : res (list bytes) :=
   | _ => Err
   end.
 
+(** * DHCPv6 relay functions and builders (entries 50-57); messages travel as wire bytes *)
+Definition e_v6_encap (args : list bytes) : res (list bytes) :=
+  match args with
+  | [w; t; l; p] => let* m := dec_msg w in let* r := encapsulate m (n_of_be t) l p in Ok (dump_msg r)
+  | _ => Err end.
+Definition e_v6_decap (args : list bytes) : res (list bytes) :=
+  match args with [w] => let* m := dec_msg w in let* r := decapsulate m in Ok (dump_msg r) | _ => Err end.
+Definition e_v6_inner (args : list bytes) : res (list bytes) :=
+  match args with [w] => let* m := dec_msg w in let* r := inner_message (S (length w)) m in Ok (dump_msg r) | _ => Err end.
+Definition e_v6_decap_index (args : list bytes) : res (list bytes) :=
+  match args with
+  | [w; i] => let* m := dec_msg w in
+              let* r := decapsulate_index (S (length w)) m (Z.of_N (n_of_be i) - 10) in Ok (dump_msg r)
+  | _ => Err end.
+Definition e_v6_relay_repl (args : list bytes) : res (list bytes) :=
+  match args with
+  | [w; rw] => let* relay := dec_msg w in let* reply := dec_msg rw in
+               if is_relay reply then Err
+               else let* r := relay_repl_from_forw (S (length w)) relay reply in Ok (dump_msg r)
+  | _ => Err end.
+Definition e_v6_advertise (args : list bytes) : res (list bytes) :=
+  match args with [w] => let* m := dec_msg w in let* r := new_advertise_from_solicit m in Ok (dump_msg r) | _ => Err end.
+Definition e_v6_request (args : list bytes) : res (list bytes) :=
+  match args with [w] => let* m := dec_msg w in let* r := new_request_from_advertise (zeros 3) m in Ok (dump_msg r) | _ => Err end.
+Definition e_v6_reply (args : list bytes) : res (list bytes) :=
+  match args with [w] => let* m := dec_msg w in let* r := new_reply_from_message m in Ok (dump_msg r) | _ => Err end.
+
 Definition run (entry : N) (args : list bytes) : res (list bytes) :=
   match entry with
   | 1 => e_label_from args
@@ -189,6 +216,14 @@ Definition run (entry : N) (args : list bytes) : res (list bytes) :=
   | 20 => e_v6_dec args
   | 30 => e_v4_accessor args
   | 40 => e_v4_build args
+  | 50 => e_v6_encap args
+  | 51 => e_v6_decap args
+  | 52 => e_v6_inner args
+  | 53 => e_v6_decap_index args
+  | 54 => e_v6_relay_repl args
+  | 55 => e_v6_advertise args
+  | 56 => e_v6_request args
+  | 57 => e_v6_reply args
   | 21 => e_v6_reenc args
   | 22 => e_v6_opt args
   | 23 => e_v6_message args
